@@ -2271,7 +2271,13 @@ func (r *Runtime) toReflectValue(v Value, dst reflect.Value, ctx *objectExportCt
 			}
 		}
 		if dst.IsNil() {
-			dst.Set(reflect.New(typ.Elem()))
+			// do not leave a freshly allocated value behind when the conversion fails
+			n := reflect.New(typ.Elem())
+			if err := r.toReflectValue(v, n.Elem(), ctx); err != nil {
+				return err
+			}
+			dst.Set(n)
+			return nil
 		}
 		return r.toReflectValue(v, dst.Elem(), ctx)
 	}
